@@ -20,6 +20,15 @@ package pstore
 //   * "eventually closed": the consumer reads until the channel is closed; a stream still open 10 s after the call is a
 //     violation (the only wall-clock rule, DESIGN §2.4; nothing is runnable that could still close it: the producer of a
 //     result set of <= 8 rows needs microseconds). After a stall the vault is abandoned, not closed.
+//   * a group filter may contain uuid.Nil: a plan submitted without a group is stored with the zero group id, so the
+//     reference filter (plain equality on the group id) selects the ungrouped plans for it;
+//   * "contended" queries: a List/Search stream is opened and NOT consumed (with >= 2 result rows its producer blocks on
+//     the 1-slot channel and keeps the vault's single pooled connection), then Search/List is called with a context that
+//     expires after 5-20 ms. The statement promises nothing about the content of that second answer; it only says "every
+//     result stream is eventually closed": so either the call returns an error (no stream exists) or the stream it
+//     returned is closed within the stall window. The deadline only shapes the schedule, the verdict is the stall rule.
+//     Afterwards the first stream is drained (it must close as well). The same closure-only rule is applied to a Search
+//     issued after Vault.Close (optional last step of a case);
 //   * On the cosmos fake only Exists is judged: the fake discards the query text of Search/List (it filters by @ids only
 //     and ignores ORDER BY, status and group predicates), so their semantics would be the fake's, not the vault's.
 
@@ -56,13 +65,19 @@ type StorePlan struct {
 // Query is one query against the store. Plan references are indices into Plans; an index >= len(Plans) denotes an id that
 // was never created.
 type Query struct {
-	// Kind: "exists", "search", "list".
-	Kind     string
-	Exists   int   `json:",omitempty"`
-	IDs      []int `json:",omitempty"`
+	// Kind: "exists", "search", "list", "contended".
+	Kind   string
+	Exists int   `json:",omitempty"`
+	IDs    []int `json:",omitempty"`
+	// Groups holds group indices; 0 is uuid.Nil (the group id of every ungrouped plan), 4 a group no plan has.
 	Groups   []int `json:",omitempty"`
 	Statuses []int `json:",omitempty"`
 	Limit    int   `json:",omitempty"`
+	// contended: First ("list" | "search") is opened and left unconsumed, then Second ("search" with the filters above |
+	// "list" with Limit) is called with a context that expires after DeadlineMS milliseconds.
+	First      string `json:",omitempty"`
+	Second     string `json:",omitempty"`
+	DeadlineMS int    `json:",omitempty"`
 }
 
 // StoreCase is a C15 case.
@@ -71,6 +86,8 @@ type StoreCase struct {
 	Seed   uint64
 	Plans  []StorePlan
 	Reopen bool `json:",omitempty"`
+	// SearchAfterClose: as the very last step the vault is closed and a Search is issued on it (closure-only rule).
+	SearchAfterClose bool `json:",omitempty"`
 	// Queries; a Search(ByStatus=[Running]) is always appended by the interpreter.
 	Queries []Query
 }
@@ -99,40 +116,54 @@ func genStoreCase(t *rapid.T) StoreCase {
 	if c.Arm == store.ArmSqliteFile {
 		c.Reopen = rapid.Bool().Draw(t, "reopen")
 	}
+	filters := func(q *Query) {
+		mask := rapid.IntRange(1, 7).Draw(t, "mask")
+		if mask&1 != 0 {
+			k := rapid.IntRange(1, 3).Draw(t, "nids")
+			for j := 0; j < k; j++ {
+				q.IDs = append(q.IDs, rapid.IntRange(0, n+1).Draw(t, "id")) // >= n: an id that was never created
+			}
+		}
+		if mask&2 != 0 {
+			k := rapid.IntRange(1, 3).Draw(t, "ngroups")
+			for j := 0; j < k; j++ {
+				q.Groups = append(q.Groups, rapid.IntRange(0, 4).Draw(t, "group")) // 0: uuid.Nil, 4: a group no plan has
+			}
+		}
+		if mask&4 != 0 {
+			k := rapid.IntRange(1, 3).Draw(t, "nstatuses")
+			for j := 0; j < k; j++ {
+				q.Statuses = append(q.Statuses, rapid.IntRange(0, len(store.Statuses)-1).Draw(t, "status"))
+			}
+		}
+	}
 	nq := rapid.IntRange(1, 12).Draw(t, "nqueries")
 	for i := 0; i < nq; i++ {
 		var q Query
-		switch r := rapid.IntRange(0, 7).Draw(t, "qkind"); {
+		switch r := rapid.IntRange(0, 8).Draw(t, "qkind"); {
 		case r <= 3:
 			q.Kind = "search"
-			mask := rapid.IntRange(1, 7).Draw(t, "mask")
-			if mask&1 != 0 {
-				k := rapid.IntRange(1, 3).Draw(t, "nids")
-				for j := 0; j < k; j++ {
-					q.IDs = append(q.IDs, rapid.IntRange(0, n+1).Draw(t, "id"))
-				}
-			}
-			if mask&2 != 0 {
-				k := rapid.IntRange(1, 3).Draw(t, "ngroups")
-				for j := 0; j < k; j++ {
-					q.Groups = append(q.Groups, rapid.IntRange(1, 4).Draw(t, "group"))
-				}
-			}
-			if mask&4 != 0 {
-				k := rapid.IntRange(1, 3).Draw(t, "nstatuses")
-				for j := 0; j < k; j++ {
-					q.Statuses = append(q.Statuses, rapid.IntRange(0, len(store.Statuses)-1).Draw(t, "status"))
-				}
-			}
+			filters(&q)
 		case r <= 5:
 			q.Kind = "exists"
 			q.Exists = rapid.IntRange(0, n).Draw(t, "exists")
-		default:
+		case r <= 7:
 			q.Kind = "list"
 			q.Limit = rapid.IntRange(0, n+2).Draw(t, "limit")
+		default:
+			q.Kind = "contended"
+			q.First = rapid.SampledFrom([]string{"list", "search"}).Draw(t, "first")
+			q.Second = rapid.SampledFrom([]string{"search", "search", "list"}).Draw(t, "second")
+			q.DeadlineMS = rapid.IntRange(5, 20).Draw(t, "deadline")
+			if q.Second == "search" {
+				filters(&q)
+			} else {
+				q.Limit = rapid.IntRange(1, n+2).Draw(t, "limit")
+			}
 		}
 		c.Queries = append(c.Queries, q)
 	}
+	c.SearchAfterClose = rapid.IntRange(0, 3).Draw(t, "searchafterclose") == 3
 	return c
 }
 
@@ -195,6 +226,8 @@ type c15run struct {
 	seed  uint64
 	// stalled: a stream was never closed; the vault's only connection may still be in use and must not be touched again
 	stalled bool
+	// closed: the case itself closed the vault
+	closed bool
 }
 
 func (r *c15run) fail(rule, format string, a ...any) {
@@ -251,17 +284,105 @@ func (r *c15run) checkCommon(kind, descr string, items []storage.ListResult, wan
 	return true
 }
 
-func (r *c15run) search(ctx context.Context, q Query, rulePrefix string) {
+func (r *c15run) filtersOf(q Query) storage.Filters {
 	f := storage.Filters{}
 	for _, i := range q.IDs {
 		f.ByIDs = append(f.ByIDs, r.idOf(i))
 	}
 	for _, g := range q.Groups {
-		f.ByGroupIDs = append(f.ByGroupIDs, store.GroupID(g))
+		f.ByGroupIDs = append(f.ByGroupIDs, store.GroupID(g)) // GroupID(0) == uuid.Nil
 	}
 	for _, s := range q.Statuses {
 		f.ByStatus = append(f.ByStatus, store.StatusOf(s))
 	}
+	return f
+}
+
+// openFirst opens the stream that is left unconsumed in a contended query.
+func (r *c15run) openFirst(ctx context.Context, kind string) (ch chan storage.Stream[storage.ListResult], err error, panicked bool) {
+	panicked = guard(r.res, "C15", r.arm, "opening the unconsumed "+kind+" stream", func() {
+		if kind == "list" {
+			ch, err = r.h.Vault.List(ctx, len(r.plans)+2)
+		} else {
+			ch, err = r.h.Vault.Search(ctx, storage.Filters{ByStatus: append([]workflow.Status(nil), store.Statuses...)})
+		}
+	})
+	return ch, err, panicked
+}
+
+// closureOnly applies the only clause that speaks about a call whose context expires or whose vault is closed: "every
+// result stream is eventually closed". Legal outcomes: an error and no stream, or a stream that gets closed.
+func (r *c15run) closureOnly(what, rule string, ch chan storage.Stream[storage.ListResult], err error) {
+	if err != nil {
+		r.res.Label(rule + ":error-no-stream")
+		return
+	}
+	if ch == nil {
+		r.fail("stream-not-closed:"+rule, "%s returned a nil channel and a nil error", what)
+		return
+	}
+	window := stallWindow()
+	items, errs, closed := drain(ch)
+	if !closed {
+		r.stalled = true
+		r.fail("stream-not-closed:"+rule, "%s returned a stream (nil error) that was not closed within %v", what, window)
+		return
+	}
+	if len(errs) > 0 {
+		r.res.Label(rule + ":closed-with-error-item")
+	} else {
+		_ = items
+		r.res.Label(rule + ":closed-with-results")
+	}
+}
+
+func (r *c15run) contended(ctx context.Context, q Query) {
+	first, ferr, panicked := r.openFirst(ctx, q.First)
+	if panicked {
+		return
+	}
+	if ferr != nil || first == nil {
+		r.res.Label("contended_first_stream_unavailable") // judged by the plain search/list queries
+		return
+	}
+	present := 0
+	for _, p := range r.plans {
+		if p.present {
+			present++
+		}
+	}
+	if present >= 2 {
+		// the producer has one row in the channel buffer and blocks on the second: it keeps the only connection
+		r.res.Label("contended_conn_held")
+	}
+	dctx, cancel := context.WithTimeout(ctx, time.Duration(q.DeadlineMS)*time.Millisecond)
+	var ch chan storage.Stream[storage.ListResult]
+	var err error
+	what := ""
+	if q.Second == "list" {
+		what = fmt.Sprintf("List(%d) with a %d ms deadline while an unconsumed %s stream is open", q.Limit, q.DeadlineMS, q.First)
+		panicked = guard(r.res, "C15", r.arm, what, func() { ch, err = r.h.Vault.List(dctx, q.Limit) })
+	} else {
+		f := r.filtersOf(q)
+		what = fmt.Sprintf("Search(ids=%v groups=%v statuses=%v) with a %d ms deadline while an unconsumed %s stream is open", q.IDs, q.Groups, f.ByStatus, q.DeadlineMS, q.First)
+		panicked = guard(r.res, "C15", r.arm, what, func() { ch, err = r.h.Vault.Search(dctx, f) })
+	}
+	if !panicked {
+		r.closureOnly(what, q.Second+"-contended", ch, err)
+	}
+	cancel()
+	// whatever happened, the first stream is consumed now so that its producer gives the connection back
+	window := stallWindow()
+	if _, _, closed := drain(first); !closed {
+		r.stalled = true
+		if len(r.res.Violations) == 0 {
+			r.fail("stream-not-closed:"+q.First, "the %s stream that was consumed late was not closed within %v", q.First, window)
+		}
+	}
+}
+
+func (r *c15run) search(ctx context.Context, q Query, rulePrefix string) {
+	f := r.filtersOf(q)
 	descr := fmt.Sprintf("Search(ids=%v groups=%v statuses=%v)", q.IDs, q.Groups, f.ByStatus)
 	// reference filter — clause: "exactly the plans matching all given filters (one of the ids, one of the group ids, any
 	// of the listed statuses)"
@@ -418,8 +539,8 @@ func checkStoreCase(c StoreCase) (res vprop.Result) {
 	}
 	r := &c15run{res: &res, arm: arm, h: h, seed: c.Seed}
 	defer func() {
-		if r.stalled {
-			h.Abandon()
+		if r.stalled || r.closed {
+			h.Abandon() // never close a pool twice or one whose connection may still be in use
 		} else {
 			h.Close()
 		}
@@ -543,6 +664,27 @@ func checkStoreCase(c StoreCase) (res vprop.Result) {
 			if len(q.Statuses) >= 2 {
 				res.Label("search_multi_status")
 			}
+			for _, g := range q.Groups {
+				if g == 0 {
+					res.Label("search_group_nil")
+					for _, p := range r.plans {
+						if p.present && p.group == uuid.Nil {
+							res.Label("search_group_nil_with_ungrouped_plans")
+						}
+					}
+				}
+			}
+			known, unknown := false, false
+			for _, i := range q.IDs {
+				if i >= 0 && i < len(r.plans) {
+					known = true
+				} else {
+					unknown = true
+				}
+			}
+			if known && unknown {
+				res.Label("search_ids_known_and_unknown")
+			}
 			if len(q.IDs) > 0 && len(q.Statuses) > 0 || len(q.Groups) > 0 && len(q.Statuses) > 0 || len(q.IDs) > 0 && len(q.Groups) > 0 {
 				res.Label("search_combined_filters")
 			}
@@ -555,6 +697,30 @@ func checkStoreCase(c StoreCase) (res vprop.Result) {
 			}
 			r.list(ctx, q.Limit)
 			vprop.Count("list_queries:"+arm, 1)
+		case "contended":
+			if arm == store.ArmCosmosFake {
+				res.Label("cosmos_fake_search_unjudged")
+				continue
+			}
+			res.Label("contended")
+			r.contended(ctx, q)
+			vprop.Count("contended_queries:"+arm, 1)
+		}
+		if len(res.Violations) > 0 || res.Skip {
+			return res
+		}
+	}
+	if c.SearchAfterClose && arm != store.ArmCosmosFake {
+		_ = h.Vault.Close(ctx)
+		r.closed = true
+		var ch chan storage.Stream[storage.ListResult]
+		var err error
+		what := "Search(ByStatus=[Running]) on a closed vault"
+		if !guard(&res, "C15", arm, what, func() {
+			ch, err = h.Vault.Search(ctx, storage.Filters{ByStatus: []workflow.Status{workflow.Running}})
+		}) {
+			res.Label("search_after_close")
+			r.closureOnly(what, "search-after-close", ch, err)
 		}
 		if len(res.Violations) > 0 || res.Skip {
 			return res
